@@ -6,7 +6,7 @@ CONSTANTS
   Shapes = {"", "H", "L", "C", "HC", "LC"}
   Mod = 1
   NCalls = 36
-  NProg = 2500
+  NProg = 500
   Sample = TRUE
   Wide = TRUE
   Dump = TRUE
